@@ -11,7 +11,7 @@ void harness(void)
     char file[XV_VAL]; file[XV_VAL - 1] = 0;
     __CPROVER_assume(XV_LIVE_OK(xv_mdctx_live));
     EVP_MD_CTX *ctx = EVP_MD_CTX_new(); bool follow; void *log_ref;
-    __CPROVER_assume(xv_dg_len <= XV_DG_MAX - 2 * (XV_VAL - 1 + 40));   /* room in the ghost log of the digest input */
+    __CPROVER_assume(xv_dg_len <= XV_DG_MAX - 112);   /* room in the ghost log of the digest input */
     unsigned long st0 = xv_stat_calls;
     int rv = do_hash_file(file, ctx, follow, log_ref);
     if (rv == 0 && follow) XV_CANARY("stat only");
